@@ -320,6 +320,11 @@ def all_obligations():
          what='transmit(): for every first code length 1..20 and padding 0..3 the 5-bit start value of the first table stays within 1..20 and lies exactly tree_pad steps from the real length',
          functions=['transmit (first-length section)'], flags=['--unwind', '8', '--unwinding-assertions'], expect=['first table: the 5-bit start value stays within'], assumed=XS, replayable=True))
 
+    A(Ob(name='decode.mtf_fast', props=['C06', 'C05', 'C08', 'C01'], kind='bounded', harness='h_decode.c', entry='h_mtf_fast', solver='cadical', timeout=1200,
+         bound='indices 1..15 (the fast path); the first row at every offset of a 64-byte window that stands in for the 8192-byte slide (with the real size SAT runs out of memory, z3 gives no answer); contents symbolic',
+         what='mtf_one(), index < 16: returns the element at that list position, moves it to the front shifting the ones before it, leaves the row pointer and every byte outside the first row unchanged',
+         functions=['mtf_one (fast path)'], flags=['--unwind', '20', '--unwinding-assertions'], expect=['mtf_one \\(index < 16\\): returns the element', 'mtf_one \\(index < 16\\): nothing outside'], replayable=True, replay_src='decode.c',
+         assumed=['translation invariance of the fast path inside the slide (it only dereferences imtf_row[0] + 0..15)']))
     # ---------------- decode.c decode(): inverse BWT (C06 O6.4, C01 O1.2 decoder side)
     for n, tier in ((3, 'quick'), (4, 'thorough')):
         A(Ob(name=f'decode.ibwt.n{n}', props=['C06', 'C01', 'C05', 'C08'], kind='bounded', tier=tier, harness='h_emit.c', entry='h_decode_ibwt', extra_srcs=['src/crctab.c'], solver='cadical',
@@ -432,6 +437,8 @@ def all_obligations():
            ['a task runs only if its ready\\(\\) predicate holds', 'worker: ends only when the process is finished'], ['CANARY worker continues after a task', 'CANARY worker woke up']),
           ('copy_callbacks', 'h_copy_callbacks', ['C19', 'C12'], [], '-cdf copy pipeline callbacks: an input buffer is queued for writing whole and once; a written buffer goes back to the reader; slot counters move inside the scheduler monitor', ['copy: an input buffer is queued'], []),
           ('copy_terminate', 'h_copy_terminate', ['C19'], [], 'copy_terminate(): the copy ends exactly when end of input was seen and no buffer is in flight', ['copy ends exactly when end of input was seen'], []),
+          ('init_io', 'h_init_io', ['C18', 'C19', 'C11'], [], 'init_io(): request_close and finish are cleared and the output queue is emptied and sized for every run (compression, decompression and the -cdf copy), whatever the previous operand left',
+           ['init_io\\(\\): every run starts with no close request'], []),
           ('primary_prologue', 'h_primary_prologue', ['C18', 'C11'], [], 'primary_thread(): eof, in_slots, out_slots, work_units are reset to their canonical values before init() and before any thread of the run exists, whatever the previous operand left',
            ['every run starts from the canonical counters'], ['CANARY prologue complete'])]
     for fn, entry, pr, repl, what, exp, can in PT:
